@@ -57,10 +57,8 @@ def main():
         results[d.name] = {"property": pid, "caught": bool(vio) and rc == 1, "with_failing_input": bool(vio) and "no-failing-input-found" not in vio[0],
                            "line": vio[0] if vio else out.strip().splitlines()[-1:] , "wall_s": round(time.time() - t0, 1), "tier": a.tier}
         print(d.name, results[d.name], flush=True)
-        # restore generated files that the mutated tree may have changed
-        gen = [str(g.relative_to(VERIF)) for g in (VERIF / "coq" / "Gen").glob(f"{pid}_*.v")]
-        if gen:
-            subprocess.run(["git", "-C", str(VERIF), "checkout", "-q", "--", *gen], check=False)
+        if not a.worktree:   # in-place run on /repo: the next check regenerates coq/Gen from the restored tree; mirror runs never touch it
+            pass
     import fcntl
     with open(VERIF / "seeded" / ".lock", "w") as lk:      # several properties may run side by side (one worktree each)
         fcntl.flock(lk, fcntl.LOCK_EX)
